@@ -52,10 +52,10 @@ CHECKS = {
                       'and no-blocked-waiter-with-free-capacity checked at quiescence. Samples schedules; not a proof.',
         'level_note': 'Trusts CPython asyncio Event/Task semantics on the custom loop; weights <= 12, <= 6 tasks, '
                       '<= 3 rounds each, <= 4 cancellations per run.',
-        'scenarios': [{'module': 'worlds.prims.wsem', 'quick': 40000, 'thorough': 1500000},
+        'scenarios': [{'module': 'worlds.prims.wsem', 'quick': 40000, 'thorough': 300000},
                       # the semaphore in its place of use: the copier's transfer-buffer budget under injected
                       # timeouts / errors / cancellation inside part copies (the C22 world with the C40 oracle)
-                      {'module': 'worlds.fs.copy', 'quick': 4000, 'thorough': 60000, 'seed_offset': 40_000_000,
+                      {'module': 'worlds.fs.copy', 'quick': 4000, 'thorough': 30000, 'seed_offset': 40_000_000,
                        'params': {'sema_oracle': True}}],
         'expected_probes': ['cancel_waiter', 'exit_by_exception', 'cancel_granted_not_yet_resumed',
                             'copier_semaphore_tracked'],
